@@ -2,6 +2,7 @@ package props
 
 import (
 	"go/token"
+	"go/types"
 	"strings"
 
 	"golang.org/x/tools/go/ssa"
@@ -21,6 +22,60 @@ func init() {
 
 func c20() []*Ob {
 	return []*Ob{
+		{Prop: "C20", ID: "C20.8", Engine: "ALIAS(view of a recycled buffer)", Floor: 2,
+			Desc:  "a name handed on is a value of its own: a byte-slice field that its owner recycles (re-sliced to [:0] and refilled, or passed to a call whose result is stored back into it) never leaves as an unsafe string view — the result of util.ByteToStringUnsafe on such a field is not returned, stored, sent or appended anywhere (it may be parsed or compared on the spot); the fields-pipe parser joining the parts of a hyphenated field name in a per-lexer scratch buffer and returning a view of it makes `fields x-forwarded-for, user-agent` a list of two corrupted names, and the projection keeps or drops the wrong fields",
+			Check: func(c *Ctx) { noViewOfRecycledBuffer(c) }},
+		{Prop: "C20", ID: "C20.9", Engine: "OWN(who-may-receive)", Floor: 2,
+			Desc: "a pooled fields filter owns its JSON decoder alone: the value of docFieldsFilter.decoder is only tested, used as the receiver of the decoder's own methods, or read through; it is not stored elsewhere, returned, or handed to a function as an argument — except to a release function when, after that call, the field is overwritten (nil or a fresh decoder) before the filter goes back to its pool; a decoder that is released to the library's pool and still referenced by the pooled filter is given to a second request, and one fetch returns the other's document",
+			Check: func(c *Ctx) {
+				n := 0
+				for _, fn := range c.P.FuncsInPkg("storeapi") {
+					for _, in := range InstrsIn(fn, FieldLoad("storeapi.docFieldsFilter", "decoder")) {
+						v, ok := in.(ssa.Value)
+						if !ok || v.Referrers() == nil {
+							continue
+						}
+						for _, r := range *v.Referrers() {
+							n++
+							bad := ""
+							switch x := r.(type) {
+							case ssa.CallInstruction:
+								cc := x.Common()
+								isRecv := cc.IsInvoke() && cc.Value == v || !cc.IsInvoke() && len(cc.Args) > 0 && cc.Args[0] == v && cc.Signature().Recv() != nil
+								if isRecv {
+									break
+								}
+								// an argument: only a release that is followed by overwriting the field
+								overwritten := false
+								for _, st := range InstrsIn(fn, FieldStore("storeapi.docFieldsFilter", "decoder")) {
+									if Dominates(x.(ssa.Instruction), st) {
+										overwritten = true
+									}
+								}
+								if !overwritten {
+									bad = "handed to " + CallName(x) + " while the filter keeps referring to it"
+								}
+							case *ssa.Store:
+								if x.Val == v {
+									bad = "stored somewhere else"
+								}
+							case *ssa.Return:
+								bad = "returned"
+							case *ssa.MakeInterface, *ssa.Send, *ssa.MapUpdate:
+								bad = "given away"
+							}
+							if bad == "" {
+								c.Site(r.Pos(), "%s uses the filter's decoder in place", FuncName(fn))
+							} else {
+								c.Violation("own:docFieldsFilter.decoder:"+FuncName(fn), r.Pos(), "in %s the decoder of a pooled fields filter is %s: two requests can end up decoding into the same tree", FuncName(fn), bad)
+							}
+						}
+					}
+				}
+				if n == 0 {
+					c.Undecided("own:docFieldsFilter.decoder:none", 0, "storeapi.docFieldsFilter.decoder is no longer used")
+				}
+			}},
 		{Prop: "C20", ID: "C20.1", Engine: "ALIAS", Floor: 1,
 			Desc: "fetched bytes are never written through: the doc parameter of docFieldsFilter.filterFields / FilterDocFields and the doc taken from the docs stream in doFetch reach no element store, copy destination, in-place append or unknown consumer",
 			Check: func(c *Ctx) {
@@ -486,4 +541,121 @@ func c20() []*Ob {
 
 func keyN(prefix string, i int) string {
 	return prefix + "#" + string(rune('1'+i))
+}
+
+// noViewOfRecycledBuffer: rule body of C20.8.
+func noViewOfRecycledBuffer(c *Ctx) {
+	isBytes := func(t types.Type) bool {
+		sl, ok := t.Underlying().(*types.Slice)
+		if !ok {
+			return false
+		}
+		b, ok := sl.Elem().Underlying().(*types.Basic)
+		return ok && b.Kind() == types.Uint8
+	}
+	type fld struct{ typ, name string }
+	// 1. the recycled byte buffers of the repository
+	recycled := map[fld]token.Pos{}
+	for _, fn := range c.P.Funcs {
+		if !c.P.InRepo(fn) || fn.Blocks == nil {
+			continue
+		}
+		for _, b := range fn.Blocks {
+			for _, in := range b.Instrs {
+				st, ok := in.(*ssa.Store)
+				if !ok || !isBytes(st.Val.Type()) {
+					continue
+				}
+				typ, name, _, ok := FieldOf(st.Addr)
+				if !ok {
+					continue
+				}
+				self := func(v ssa.Value) bool { return ValueIsField(v, typ, name) }
+				cl, isCall := st.Val.(*ssa.Call)
+				if ex, isEx := st.Val.(*ssa.Extract); isEx {
+					cl, isCall = ex.Tuple.(*ssa.Call)
+				}
+				if !isCall {
+					continue
+				}
+				if CallName(cl) == "builtin.append" {
+					// append(f[:0], ...)
+					if sl, ok := cl.Call.Args[0].(*ssa.Slice); ok && sl.High != nil {
+						if k, isK := ConstInt(sl.High); isK && k == 0 && DerivesFromNoCall(sl.X, self) {
+							recycled[fld{typ, name}] = st.Pos()
+						}
+					}
+					continue
+				}
+				for _, a := range cl.Call.Args {
+					if isBytes(a.Type()) && DerivesFromNoCall(a, self) {
+						recycled[fld{typ, name}] = st.Pos()
+					}
+				}
+			}
+		}
+	}
+	for f, pos := range recycled {
+		c.Site(pos, "recycled buffer: %s.%s", f.typ, f.name)
+	}
+	// 2. no escaping view of one of them
+	for _, fn := range c.P.Funcs {
+		if !c.P.InRepo(fn) || fn.Blocks == nil {
+			continue
+		}
+		for _, call := range CallsIn(fn, Callee("util.ByteToStringUnsafe")) {
+			var hit *fld
+			for f := range recycled {
+				f := f
+				if DerivesFromNoCall(Arg(call, 0), func(v ssa.Value) bool { return ValueIsField(v, f.typ, f.name) }) {
+					hit = &f
+				}
+			}
+			if hit == nil {
+				continue
+			}
+			v := call.Value()
+			esc := ""
+			seen := map[ssa.Value]bool{}
+			var walk func(v ssa.Value)
+			walk = func(v ssa.Value) {
+				if v == nil || seen[v] || v.Referrers() == nil {
+					return
+				}
+				seen[v] = true
+				for _, r := range *v.Referrers() {
+					switch x := r.(type) {
+					case *ssa.Return:
+						esc = "returned"
+					case *ssa.Store:
+						if x.Val == v {
+							if _, local := x.Addr.(*ssa.Alloc); !local || x.Addr.(*ssa.Alloc).Heap {
+								esc = "stored"
+							}
+						}
+					case *ssa.MapUpdate, *ssa.Send:
+						esc = "stored"
+					case *ssa.Call:
+						if CallName(x) == "builtin.append" {
+							esc = "appended to a slice"
+						}
+					case *ssa.Phi:
+						walk(x)
+					case *ssa.Slice:
+						walk(x)
+					case *ssa.ChangeType:
+						walk(x)
+					case *ssa.MakeInterface:
+						walk(x)
+					}
+				}
+			}
+			walk(v)
+			if esc == "" {
+				c.Site(call.Pos(), "%s looks at %s.%s through a view on the spot", FuncName(fn), hit.typ, hit.name)
+			} else {
+				c.Violation("alias:view-of-recycled:"+FuncName(fn)+":"+hit.typ+"."+hit.name, call.Pos(), "%s makes an unsafe string view of the recycled buffer %s.%s and the view is %s: the next use of the buffer rewrites the string under whoever holds it", FuncName(fn), hit.typ, hit.name, esc)
+			}
+		}
+	}
 }
